@@ -196,7 +196,7 @@ def _ready_names(a: tuple, k: dict) -> list[str]:
 def err_desc(e: BaseException | None) -> Any:
     if e is None:
         return None
-    if isinstance(e, InjectedFault):
+    if getattr(e, "hg_injected", False):
         return ["injected", e.fid]
     return [type(e).__name__, canon(getattr(e, "args", ()))[:200]]
 
